@@ -318,10 +318,13 @@ def run(chk):
             inst = f["full"].split("evaluate")[1][:40]
             body = f["body"]["body"]
             W = WsDef(F, cls, cls + "::Workspace", spline_cls, resized)
+            from .c16 import discover_roles
+            count_member = discover_roles(F, Effects(F), cls)[1]["COUNT"]
+            W.count_member = count_member
             idx_resize = [k for k, s_ in enumerate(body) for nd in walk(s_) if nd.get("k") == "call" and callee(nd).get("fid") == rz["fid"] and s_.get("k") in ("expr", "decl")]
             idx_first_use = [k for k, s_ in enumerate(body) if W.fields_in(s_)]
             rzcall = [nd for s_ in body for nd in walk(s_) if nd.get("k") == "call" and callee(nd).get("fid") == rz["fid"]]
-            ok = len(idx_resize) >= 1 and idx_first_use and idx_resize[0] < idx_first_use[0] and pp(rzcall[0]["args"][0]) == "num_segments_"
+            ok = len(idx_resize) >= 1 and idx_first_use and idx_resize[0] < idx_first_use[0] and pp(rzcall[0]["args"][0]) == count_member
             chk.ob("C10-R3", "%s evaluate sizes the workspace for the current problem before touching it" % cls, ok, loc(f), "", construct="%s/evaluate%s/resize-first" % (cls, inst))
             W.fn_stack.append(f)
             W.stmts(body)
